@@ -1,24 +1,26 @@
 #!/bin/sh
 # usage: tools/verify_seed.sh <seed dir containing patch.diff and demo.rs|demo.diff> [crate]
-# Confirms in the scratch worktree /tmp/wt_verify (never in /repo): demo passes on HEAD, the repository's test
+# Confirms in the scratch worktree $WT_VERIFY (default /tmp/wt_verify) (never in /repo): demo passes on HEAD, the repository's test
 # suite passes with the change, demo fails with the change. Prints a one-line verdict.
 sd="$1"; crate="${2:-rs1090}"
-wt=/tmp/wt_verify
-export CARGO_NET_OFFLINE=true CARGO_TARGET_DIR=/tmp/wt_verify_target
+# WT_VERIFY=<dir>: another scratch worktree (parallel lanes); its build output goes to <dir>_target
+wt="${WT_VERIFY:-/tmp/wt_verify}"
+export CARGO_NET_OFFLINE=true CARGO_TARGET_DIR="${wt}_target"
+out="${wt}_demo_out.txt"
 cd $wt || exit 9
 git checkout -q -- . ; git clean -fdq -- crates python
 name=seed_demo_$(basename "$sd" | tr -c 'A-Za-z0-9_\n' '_')
 if [ -f "$sd/demo.sh" ]; then
   # a script that drives the real binary: exit 0 = the property holds on its input
-  run_demo() { sh "$sd/demo.sh" "$wt" "$CARGO_TARGET_DIR" > /tmp/demo_out.txt 2>&1; }
+  run_demo() { sh "$sd/demo.sh" "$wt" "$CARGO_TARGET_DIR" > "$out" 2>&1; }
 elif [ -f "$sd/demo.diff" ]; then
   git apply "$sd/demo.diff" || { echo "VERDICT $sd: demo.diff does not apply"; exit 8; }
   # run the tests added by the demo patch: all tests of the crate whose name is new => run full crate tests, look for failures
-  run_demo() { cargo test -p jet1090 --offline 2>&1 | tail -40 > /tmp/demo_out.txt; grep -q "test result: ok" /tmp/demo_out.txt && ! grep -q "FAILED\|panicked\|error\[" /tmp/demo_out.txt; }
-  [ "$crate" = "rs1090" ] && run_demo() { cargo test -p rs1090 --offline 2>&1 | tail -60 > /tmp/demo_out.txt; ! grep -q "FAILED\|failed\|error\[" /tmp/demo_out.txt; }
+  run_demo() { cargo test -p jet1090 --offline 2>&1 | tail -40 > "$out"; grep -q "test result: ok" "$out" && ! grep -q "FAILED\|panicked\|error\[" "$out"; }
+  [ "$crate" = "rs1090" ] && run_demo() { cargo test -p rs1090 --offline 2>&1 | tail -60 > "$out"; ! grep -q "FAILED\|failed\|error\[" "$out"; }
 else
   mkdir -p crates/$crate/tests; cp "$sd/demo.rs" crates/$crate/tests/$name.rs
-  run_demo() { RUSTFLAGS="$DEMO_RUSTFLAGS" cargo test -p $crate --test $name --offline 2>&1 | tail -40 > /tmp/demo_out.txt; grep -q "test result: ok" /tmp/demo_out.txt; }
+  run_demo() { RUSTFLAGS="$DEMO_RUSTFLAGS" cargo test -p $crate --test $name --offline 2>&1 | tail -40 > "$out"; grep -q "test result: ok" "$out"; }
 fi
 if run_demo; then base=pass; else base=FAIL; fi
 git apply "$sd/patch.diff" || { echo "VERDICT $sd: patch.diff does not apply"; exit 7; }
